@@ -995,6 +995,28 @@ def run_all(ctx):
                    mode, rng.randrange(10 ** 6), ("wide", ">512"), histories=[rng.choice(CSC_HISTORIES[:5])],
                    extras=gen_extras(rng))
         ctx.count("wide table: >512 IDs on an axis")
+    # more than 65536 cells in the RESULT, with other-axis vectors that become all-zero through the operation (their counts
+    # sit only in vectors below the depth): a clean-up that switches method with the size of the table
+    def many_cells_spec(rng, axis, side=300, shallow=5):
+        deep = side - shallow
+        grid = [[0] * side for _ in range(side)]
+        for j in range(deep):
+            for i in rng.sample(range(deep), rng.randint(2, 6)):
+                grid[i][j] = rng.randint(1, 5)
+            grid[rng.randrange(deep)][j] = rng.randint(2, 5)
+        for j in range(deep, side):
+            grid[j][j] = 1                       # a vector of total 1 whose only count is the only count of row j
+        obs = ["O%d" % i for i in range(side)]
+        samp = ["S%d" % i for i in range(side)]
+        if axis == "observation":
+            grid = [list(r) for r in zip(*grid)]
+        return {"obs": obs, "samp": samp, "rows": grid, "omd": None, "smd": None, "type": None}
+    for axis in (("sample", "observation") if not ctx.quick() else (["sample", "observation"][ctx.seed % 2],)):
+        rng = ctx.rng
+        for mode in ("without", "with"):
+            table_case(ctx, impls, many_cells_spec(rng, axis), rng.choice(["csr", "csc"]), 2, axis, mode,
+                       rng.randrange(10 ** 6), ("wide", ">65536-cells"))
+            ctx.count("result of more than 65536 cells, other-axis vectors emptied: %s/%s" % (axis[:4], mode))
     # degenerate shapes: one axis (or both) without any ID
     for spec in ({"obs": [], "samp": ["x", "y"], "rows": [], "omd": None, "smd": None, "type": None},
                  {"obs": ["a", "b"], "samp": [], "rows": [[], []], "omd": None, "smd": None, "type": None},
